@@ -492,9 +492,15 @@ class WARCRecorder(object):
 
         raw_file_record_size_str = str(raw_file_record_size)
         raw_file_offset_str = str(raw_file_offset)
-        # The line is delimited by spaces.
-        filename = os.path.basename(self._warc_filename) \
-            .replace('%', '%25').replace(' ', '%20')
+        # The fields of a line are delimited by spaces and the lines by
+        # line breaks: neither may appear in the name as it is.
+        filename = re.sub(
+            r'[%\x00-\x20\x7f\x85\u2028\u2029]',
+            lambda match: ''.join(
+                '%{:02X}'.format(byte)
+                for byte in match.group(0).encode('utf-8')),
+            os.path.basename(self._warc_filename)
+        )
         record_id = record.fields[WARCRecord.WARC_RECORD_ID]
         fields_strs = (
             url,
